@@ -50,22 +50,34 @@ def configs(ctx: Ctx) -> list[dict[str, Any]]:
             (1, progs2[4], None), (1, progs2[2], None), (1, progs2[0], TTL + 1),
             (2, progs2[2], TTL + 1), (1, progs2[1], None), (2, progs2[4], TTL - 1),
         ]:
-            out.append({"cap": cap, "progs": [list(p) for p in progs], "adv": adv, "bound": 2})
+            out.append({"cap": cap, "progs": [list(p) for p in progs], "adv": adv, "bound": 2, "env_cost": 1})
         return out
+    def add(cap: int, progs: Any, adv: Any, bound: int, env_cost: int) -> None:
+        out.append({"cap": cap, "progs": [list(p) for p in progs], "adv": adv, "bound": bound, "env_cost": env_cost})
+
+    # (1) every 2-thread program x capacity x clock advance, clock event counted as a preemption
     for cap in (1, 2, 3):
         for progs in progs2:
             for adv in advs:
-                out.append({"cap": cap, "progs": [list(p) for p in progs], "adv": adv, "bound": 2})
-    if ctx.thorough:
-        progs3 = [(["x"], ["x"], ["x"]), (["x"], ["x"], ["y"]), (["x", "y"], ["x"], ["y"]), (["x", "x"], ["x"], ["x"])]
-        for cap in (1, 2, 3):
-            for progs in progs3:
-                for adv in (None, TTL - 1, TTL + 1):
-                    out.append({"cap": cap, "progs": [list(p) for p in progs], "adv": adv, "bound": 2})
-        for cap in (2, 3):
-            for progs in progs2[:3]:
-                for adv in (None, TTL + 1):
-                    out.append({"cap": cap, "progs": [list(p) for p in progs], "adv": adv, "bound": 3})
+                add(cap, progs, adv, 2, 1)
+    # (2) clock event free (placed at every position on top of 2 preemptions) for the one-op-per-thread programs
+    for cap in (1, 2, 3):
+        for progs in (progs2[0], progs2[4]):
+            for adv in advs[1:]:
+                add(cap, progs, adv, 2, 0)
+    # (3) three threads
+    progs3 = [(["x"], ["x"], ["x"]), (["x"], ["x"], ["y"]), (["x", "y"], ["x"], ["y"]), (["x", "x"], ["x"], ["x"])]
+    for cap in (1, 2, 3):
+        for progs in progs3:
+            add(cap, progs, None, 2, 1)
+    for cap in (2, 3):
+        for progs in progs3[:2]:
+            for adv in (TTL - 1, TTL + 1):
+                add(cap, progs, adv, 2, 1)
+    # (4) three preemptions
+    for cap in (2, 3):
+        for progs in progs2[:2]:
+            add(cap, progs, None, 3, 1)
     return out
 
 
@@ -153,7 +165,7 @@ def run(ctx: Ctx) -> None:
             continue
         st = S.explore(
             ctx, make_setup(cfg), lambda x, cfg=cfg: oracle(ctx, cfg, x), bound=cfg["bound"], label=str(cfg), trace=TRACE,
-            env_cost=1 if ctx.quick else 0,
+            env_cost=cfg.get("env_cost", 1),
         )
         ctx.extra["schedules"] += st["schedules"]
         ctx.extra["configs"] += 1
@@ -166,7 +178,7 @@ def run(ctx: Ctx) -> None:
 
 def replay(ctx: Ctx, case: dict[str, Any]) -> None:
     cfg = case["cfg"]
-    x = S.run_one(make_setup(cfg), case["choices"], None, trace=TRACE, env_cost=1 if case.get("tier", "quick") == "quick" else 0)
+    x = S.run_one(make_setup(cfg), case["choices"], None, trace=TRACE, env_cost=cfg.get("env_cost", 1))
     oracle(ctx, cfg, x)
 
 ENGINE = "E3-SCHED"
